@@ -365,8 +365,10 @@ fn zone_extremes(ch: &mut Choices, case: &mut Case) -> Result<(), String> {
                 }
             };
             // (where the local time of `from` cannot be represented the library starts the stream at the first
-            // representable local time, up to the zone's offset after `from`: inside the window, not asserted equal)
-            let first_ok = a.first().is_some_and(|f| f.0 >= t_utc && f.0 <= t_utc + Duration::hours(16) && f.2 == RuleKind::Closed && f.3.is_empty() && Some(f.1) == b.first().map(|x| x.1));
+            // representable local time, up to the zone's offset after `from`; and a `from` in the first pass of a repeated
+            // stretch of local time - a whole day when Rarotonga crossed the date line in December 1899 - is read as the
+            // second pass (C09: the later instant): inside the window, not asserted equal)
+            let first_ok = a.first().is_some_and(|f| f.0 >= t_utc && f.0 <= t_utc + Duration::hours(26) && f.2 == RuleKind::Closed && f.3.is_empty() && Some(f.1) == b.first().map(|x| x.1));
             if !first_ok || a.len() != b.len() || a[1..] != b[1..] {
                 return Err(format!(
                     "`{text}`: iter_range({at}, {to}) = {:?} ...; from 1899-12-29T00:00 UTC the stream is {:?} ...: the first interval must start at `from` (or within the zone offset after it), be closed without comments and end where the reference's first interval ends, the rest must be identical ({} vs {} intervals)",
@@ -425,7 +427,7 @@ pub fn property() -> Property {
         },
         SubCheck {
             name: "zone_extremes",
-            rule: "generated expressions with years next to 1900 or 9999 evaluated in a time-zone context (18 zones with extreme / odd offsets, or any chrono-tz zone) at instants given in a second zone: the first / last representable instant and up to 16 h inside (where the local time of the context may not be representable), years -262000..262000, December 1899 / January 10000: state closed; from before 1900, next_change and the intervals of iter_range up to a drawn end in early 1900 equal those obtained from 1899-12-29T00:00 UTC (first interval: starts at `from` or, where its local time is not representable, within 16 h after it; closed, no comments, same end); beyond 9999: next_change none, iter_from yields nothing, and a window from December 9999 ending there equals the window ending on 10000-01-05; non-trivial = the compared stream has more than one interval and the instant is far outside or at the representable extremes",
+            rule: "generated expressions with years next to 1900 or 9999 evaluated in a time-zone context (18 zones with extreme / odd offsets, or any chrono-tz zone) at instants given in a second zone: the first / last representable instant and up to 16 h inside (where the local time of the context may not be representable), years -262000..262000, December 1899 / January 10000: state closed; from before 1900, next_change and the intervals of iter_range up to a drawn end in early 1900 equal those obtained from 1899-12-29T00:00 UTC (first interval: starts at `from` or, where its local time is not representable, within 26 h after it (unrepresentable or repeated local time); closed, no comments, same end); beyond 9999: next_change none, iter_from yields nothing, and a window from December 9999 ending there equals the window ending on 10000-01-05; non-trivial = the compared stream has more than one interval and the instant is far outside or at the representable extremes",
             f: zone_extremes,
             text_f: None,
             cases_quick: 6_000,
